@@ -821,6 +821,24 @@ class ExprMixin:
             self.raise_star(st, out)
             st = self.emit("PROBE", d, [args[0]], n, st, frame)
             return frozenset(("listdir", t) for t in args[0]), st
+        if d == "glob.escape":
+            # the same path, with its pattern characters taken literally: remembered for the glob call it is made for
+            return (args[0] if args else EMPTY), st.set(done=st.done | {("globescaped", t) for t in (args[0] if args else EMPTY)})
+        if d in ("glob.glob", "glob.iglob"):
+            # glob(join(DIR, "*")): the entries of DIR as full paths - provided DIR was escaped; the characters of a store path
+            # (or of anything else that is not a constant) are otherwise read as a pattern
+            res, dirs, plain = set(), set(), True
+            for t in (args[0] if args else EMPTY):
+                if tag(t) == "join" and len(t[1]) >= 2 and is_const(t[1][-1]) and t[1][-1][1] in ("*", "**"):
+                    dt = J(list(t[1][:-1])) if len(t[1]) > 2 else t[1][0]
+                    dirs.add(dt)
+                    res.add(J([dt, ("listed", dt)]))
+                else:
+                    plain = False
+                    res.add(("listed", t))
+            esc = plain and all(("globescaped", dt) in st.done or is_const(dt) for dt in dirs)
+            st = self.emit("PROBE", "os.listdir", [frozenset(dirs) or (args[0] if args else EMPTY)], n, st, frame, extra={"glob": True, "escaped": esc})
+            return V(("listof", frozenset(res))), st
         if d == "os.scandir":
             # the directory's entries as DirEntry objects (name / path / is_file()); also usable as a context manager
             self.raise_star(st, out)
